@@ -71,13 +71,16 @@ def src_hash():
 _hash = None
 
 
+COVERAGE = bool(os.environ.get("VERIF_COV"))
+
+
 def build_dir(tier):
     """Objects are rebuilt whenever any file under $REPO/src or harness/ changes."""
     global _hash
     if _hash is None:
         _hash = src_hash()
     base = os.path.join(BUILD, "obj")
-    d = os.path.join(base, _hash, tier)
+    d = os.path.join(base, _hash, tier + ("-cov" if COVERAGE else ""))
     os.makedirs(d, exist_ok=True)
     # drop objects of older source states
     for old in os.listdir(base):
@@ -93,6 +96,9 @@ def build_driver(name, tier, lib, extra_flags=(), extra_src=(), libs=("-lm",)):
     if os.path.exists(out):
         return out
     cc, flags = TIERS[tier]
+    if COVERAGE and cc[0] == "gcc":
+        # tools/covaudit.py: which library lines do the drivers reach?  -O0 keeps the line attribution exact
+        flags = [f for f in flags if f not in ("-O2", "-O3")] + ["-O0", "--coverage"]
     srcs = [os.path.join(HARN, name + ".c")] + [os.path.join(HARN, s) for s in extra_src]
     srcs += [os.path.join(REPO, "src", s) for s in lib]
     tmp = out + ".tmp%d" % os.getpid()
